@@ -133,10 +133,10 @@ func judgeQ(r *ev.Run, sess *qrig.Sess, k kase, directRight bool) bool {
 		path = "query_only"
 	}
 	r.Violation(ev.Witness{
-		Summary: fmt.Sprintf("[%s path, %s] blacklisted %q: %s variant (%s %s %s) %q: blacklist error=%v other error=%q statements on backends=%d (direct IsSQLAllowed right: %v)",
-			k.Path, path, k.Base, k.Class, k.Knob, k.Site, k.What, k.Variant, o.blocked, o.errMsg, o.execs, directRight),
+		Summary: fmt.Sprintf("[%s path, %s] blacklist entry ("+k.entryKind()+") %q: %s variant (%s %s %s) %q: blacklist error=%v other error=%q statements on backends=%d (direct IsSQLAllowed right: %v)",
+			k.Path, path, k.entryText(), k.Class, k.Knob, k.Site, k.What, k.Variant, o.blocked, o.errMsg, o.execs, directRight),
 		Features: map[string]string{"class": k.Class, "knob": k.Knob, "site": k.Site, "what": k.What, "next": k.Next, "ctx": k.Ctx,
-			"stmt": k.Kind, "path": path, "qkind": bad},
+			"stmt": k.Kind, "path": path, "qkind": bad, "entry": k.entryKind()},
 		Case: k,
 	})
 	return false
@@ -147,7 +147,7 @@ func openSession(qw *qworld, k kase) *qrig.Sess {
 	if k.Path == "multi" {
 		ns, caps = fmt.Sprintf("m%d", qw.slot), uint32(qrig.CapsMulti)
 	}
-	qw.w.SetBlackSQL(ns, []string{k.Base})
+	qw.w.SetBlackSQL(ns, []string{k.entryText()})
 	sess, err := qw.w.NewSession(ns, qrig.RwNoSplit, caps)
 	if err != nil {
 		ev.Fatalf("query rig: NewSession: %v", err)
@@ -171,7 +171,8 @@ func replayQuery(r *ev.Run, g *rig, k kase) {
 }
 
 // queryPath runs the query-path subset of one base; returns the number of evaluations.
-func queryPath(r *ev.Run, g *rig, s spec, toks []tok, base string, eqs, sts []variant, otherBase string, otherSpec spec) int64 {
+func queryPath(r *ev.Run, g *rig, s spec, toks []tok, base string, eqs, sts []variant, otherBase string, otherSpec spec,
+	spells []spelling, entryRigs map[string]*rig, okStructurals []variant) int64 {
 	qw := getWorld()
 	defer putWorld(qw)
 	n := int64(0)
@@ -200,6 +201,29 @@ func queryPath(r *ev.Run, g *rig, s spec, toks []tok, base string, eqs, sts []va
 			r.Distinct("query_path_classes", k.Class+"|"+k.Knob+"|"+k.Site+"|"+k.What)
 			if k.Variant != base {
 				r.Distinct("nontrivial", "q|"+base+"|"+k.Variant)
+			}
+		}
+	}
+	// entry spellings on the query path: the blacklist of the open session's namespace is replaced
+	// (the session is idle between two commands) by another spelling of the base
+	for _, sp := range spells {
+		switch sp.name {
+		case "strings_semicolon", "num_to_string_semicolon", "leading_comment_semicolon", "trailing_semicolon":
+		default:
+			continue
+		}
+		qw.w.SetBlackSQL(fmt.Sprintf("q%d", qw.slot), []string{sp.text})
+		gE := entryRigs[sp.name]
+		ks := []kase{{Variant: base, Class: "equivalent", Knob: "identity"}}
+		if len(okStructurals) > 0 {
+			v := okStructurals[0]
+			ks = append(ks, kase{Variant: v.SQL, Class: v.Class, Knob: v.Knob, Site: v.Site, What: v.What})
+		}
+		for _, k := range ks {
+			k.Base, k.Kind, k.Path, k.Entry, k.EntryKind = base, s.Kind, "query", sp.text, sp.name
+			n++
+			if judgeQ(r, sess, k, directRight(gE, k)) {
+				r.Distinct("query_path_classes", "entry|"+sp.name+"|"+k.Class)
 			}
 		}
 	}
